@@ -879,9 +879,10 @@ PTRef ArithLogic::mkConst(SRef s, char const * name) {
     PTRef ptr = PTRef_Undef;
     if (s == sort_REAL or s == sort_INT) {
         char * rat;
-        if (s == sort_REAL)
+        if (s == sort_REAL) {
+            if (not isRealString(name)) throw ApiException("Not parseable as a real");
             stringToRational(rat, name);
-        else {
+        } else {
             if (not isIntString(name)) throw ApiException("Not parseable as an integer");
             rat = strdup(name);
         }
